@@ -211,6 +211,24 @@ static void mon_c07(World& w) {
 }
 
 // broker-side protocol monitors (C10 CONNECT-first/gating, C17 strict decode, C04 ack sanity)
+// C19 (client level): a complete frame that is structurally unparseable, once read by the client, ends that connection:
+// the client closes it (a DISCONNECT may precede)
+static void mon_c19(World& w) {
+    const std::string sn = w.sc.family();
+    for (auto& e : w.broker->wire) { if (e.c2b || !e.malformed || e.incomplete || e.conn < 0 || e.conn >= int(w.net->conns.size())) continue;
+        // the whole frame must be there: fixed header byte, complete Remaining Length, body
+        size_t i = 1, mult = 1, rl = 0; bool varint_ok = false; for (; i < e.raw.size() && i <= 4; ++i) { rl += size_t(uint8_t(e.raw[i]) & 0x7F) * mult; mult *= 128; if (!(uint8_t(e.raw[i]) & 0x80)) { varint_ok = true; ++i; break; } }
+        if (!varint_ok || i + rl > e.raw.size()) continue;
+        const sim::Conn& cn = w.net->conns[e.conn]; size_t read_seq = SIZE_MAX;
+        uint64_t frame_end = e.b2c_end - e.raw.size() + i + rl;
+        for (size_t m = 0; m < cn.read_marks.size() && m < cn.read_mark_seq.size(); ++m) if (cn.read_marks[m].first >= frame_end) { read_seq = cn.read_mark_seq[m]; break; }
+        if (read_seq == SIZE_MAX) continue;      // never read in full
+        auto& st = w.net->streams[cn.stream];
+        // (packets that precede the malformed one in the same read are still answered - only the closure is demanded)
+        if (w.open_before_epilogue.count(st->id) && !cn.dead && !cn.broker_closed && !w.capped) { w.vio("C19:malformed-not-closed:" + sn, "the client read a malformed packet (" + e.why + ") on connection " + std::to_string(e.conn) + " and kept the connection"); return; }
+    }
+}
+
 static void mon_broker(World& w) {
     for (auto& v : w.broker->protocol_violations) { std::string prop = v.substr(0, 3); size_t col = v.find(' ', 5);
         bool want = (prop == "C17" && (w.sc.monitors & M_C17)) || (prop == "C10" && (w.sc.monitors & M_C10)) || (prop == "C04" && (w.sc.monitors & M_C04));
@@ -617,6 +635,7 @@ void run_monitors(World& w) {
     if (m & M_C15) mon_c15(w);
     if (m & M_C16) mon_reject(w, "C16");
     if (m & M_C20) mon_c20(w);
+    if (m & M_C19) mon_c19(w);
 }
 
 // ------------------------------------------------------------------ scenario sets
@@ -1010,6 +1029,8 @@ std::vector<Scenario> scenarios_for(const std::string& prop, int tier) {
         ref::Packet pa; pa.type = ref::PUBACK; pa.pid = 1; pa.has_pid = true; pa.has_rc = true; pa.rc = 0; pa.has_props = true; pa.props = {ref::pstr(0x1F, "ok")};
         ref::Packet pr = pa; pr.type = ref::PUBREC; ref::Packet pc = pa; pc.type = ref::PUBCOMP; ref::Packet sa; sa.type = ref::SUBACK; sa.pid = 1; sa.has_pid = true; sa.rcs = {1, 2}; sa.props = {ref::ppair("k", "v")};
         ref::Packet ca; ca.type = ref::CONNACK; ca.rc = 0; ca.has_rc = true; ca.props = {ref::pnum(0x21, 10), ref::pstr(0x1F, "hi")};
+        ref::Packet inb; inb.type = ref::PUBLISH; inb.flags = 2; inb.pid = 5; inb.has_pid = true; inb.topic = "t"; inb.payload = "xy"; inb.props = {ref::pnum(0x01, 1), ref::pnum(0x0B, 7), ref::ppair("k", "v")};
+        ref::Packet prl; prl.type = ref::PUBREL; prl.flags = 2; prl.pid = 1; prl.has_pid = true; prl.has_rc = true; prl.rc = 0; prl.has_props = true; prl.props = {ref::pstr(0x1F, "rel")};
         std::vector<Ph> phases = {
             {"handshake", {RUN(), PUB(1, 1)}, ref::CONNECT, 1, ref::encode(ca)},
             {"idle", {RUN(), WAIT_HS(1), A(Action::BRAW), PUB(1, 1)}, 0, 0, ""},
@@ -1017,6 +1038,9 @@ std::vector<Scenario> scenarios_for(const std::string& prop, int tier) {
             {"qos2-await-pubrec", {RUN(), PUB(2, 1)}, ref::PUBLISH, 1, ref::encode(pr)},
             {"qos2-await-pubcomp", {RUN(), PUB(2, 1)}, ref::PUBREL, 1, ref::encode(pc)},
             {"subscribe-inflight", {RUN(), SUB({{"a", 1}, {"b/#", 2}})}, ref::SUBSCRIBE, 1, ref::encode(sa)},
+            // the client as receiver: mutations of an inbound PUBLISH carrying properties, and of the PUBREL of an inbound QoS 2 exchange
+            {"idle-inbound-publish", {RUN(), WAIT_HS(1), RECV(2), A(Action::BRAW), PUB(1, 1)}, 0, 0, ref::encode(inb)},
+            {"inbound-qos2-await-pubrel", {RUN(), WAIT_HS(1), RECV(2), BPUB(2, 100), PUB(1, 1)}, ref::PUBREC, 1, ref::encode(prl)},
         };
         // unsolicited (stale / duplicate) well-formed acknowledgements for the id the next request will get
         std::vector<std::string> stale; { ref::Packet q = pa; q.rc = 0x10; q.props = {ref::pstr(0x1F, "stale")}; stale.push_back(ref::encode(q)); q.type = ref::PUBREC; q.rc = 0; stale.push_back(ref::encode(q)); q.type = ref::PUBCOMP; stale.push_back(ref::encode(q));
